@@ -8,7 +8,7 @@ CHECK = {
  'level_text': 'After every delete the full database dump, the cached tip, height/ID/transaction lookups and the BFT heights are compared byte for byte '
                'with the state recorded before the block was applied (exemptions: finalized marker, diffs/events pruned below the finality reached); '
                'temp blocks contain exactly the removed blocks when requested; a reorg to a sibling equals a twin node that applied the sibling first.',
- 'level_note': 'Fake deterministic application (state root = hash chain); blocks built by the harness from real node state; real Executer/Chain/pebble.',
+ 'level_note': 'Fake deterministic application (state root = hash chain; per-block events also for blocks without assets; generator-key rotations); blocks built by the harness from real node state; real Executer/Chain/pebble.',
  'technique': 'property-based testing (rapid): metamorphic apply+delete = identity, differential against a twin node',
  'assumptions': ['application state is scripted (C16 covers the real framework)', 'only blocks above the finalized height are deleted (C04)'],
  'quick': [{'pkg': 'c05', 'run': 'TestApplyDelete|TestRegress', 'checks': 250, 'timeout': 600},
